@@ -49,6 +49,18 @@ CHECKS = {
         "Trusted: reference method-set model (refprog::associated, naming rule first-come with <field>_<name> on clash); offset_of! for sub-object offsets; Miri/valgrind.",
         "DESIGN.md §6 C07",
     ),
+    "C08": (
+        "executed enum probe (native + Miri) of discriminants/size/Default over generated enums + exhaustive acceptance sweep against the reference rule",
+        "Every accepted generated enum (all integer bases, 1-32 variants, boundary values, default marker at any position, a third through the text path) is emitted, compiled and its variants' numeric values, size/align and Default::default() read from the executed probe; acceptance (all stages incl. the backend) is compared with the reference rule for the complete space of <=3 variants x boundary constants x bases x default position. Exploration, exhaustive for the acceptance sweep (thorough).",
+        "Trusted: rustc's evaluation of `E::V as i128`; Miri; the reference rule (first = 0, successor = previous + 1, range of the base type, default marker iff defaultable); duplicate discriminants unspecified here (C13).",
+        "DESIGN.md §6 C08",
+    ),
+    "C13": (
+        "compiler-as-monitor: rustc --emit=metadata on assembled crates of generated accepted programs + nightly rustc for i686-pc-windows-msvc definitions + syn parse",
+        "Assembles the emitted files of generated accepted multi-module programs (markers drawn independently of field types, cross-module references, inheritance, singletons, extern values, prologues/epilogues, dedicated marker/packed/singleton/discriminant cases) into crates mirroring the input tree with extern types supplied, and requires rustc to type-check them on the host and the definitions on i686-pc-windows-msvc. One-directional oracle: accepted => compiles. Exploration.",
+        "Trusted: rustc; the supplied extern type stand-ins (repr(C, align) byte arrays deriving Copy/Clone/Default); ABI strings normalised to C on the host.",
+        "DESIGN.md §6 C13",
+    ),
     "C14": (
         "directory-level output monitor: pyxis::build on generated trees, listing + syn item multiset + prologue/epilogue token comparison; collision inputs; registry hook events",
         "Writes hundreds (quick) to thousands (thorough) of generated multi-module trees (nested directories, empty modules, rust and foreign backend blocks) to real directories, runs pyxis::build and compares the output directory listing and each file's top-level items with the declarations; five kinds of colliding declarations must be rejected (hook event RegistryAdd{replaced: different} records a silent overwrite). Exploration.",
